@@ -45,7 +45,8 @@ type atlasRun struct {
 	Hosts       []hostPlan
 	Cluster     phasePlan
 	ClusterBody int // 0 standard; 1 SRV; 2 not JSON; 3 no connection string; 4 malformed connection string
-	OutFault    int // 0 none; 1 <out>.<k> is a directory; 2 output directory missing
+	OutFault    int // 0 none; 1 <out>.<k> is a directory; 2 output directory missing; 3 <out>.<k> is a symbolic link to /dev/full
+	KeyState    int // CLI level, with --encrypt: state of the key path (see atlasKeyStates); 0 = a fresh path
 	OutFaultAt  int
 	Window      bool
 	KeySupply   int // 0 flags; 1 environment; 2 public by flag, private by env; 3 the other way round
@@ -58,6 +59,7 @@ type atlasRun struct {
 var unauthMenu = []string{AnsDigest, AnsOK, AnsBasic, Ans401, Ans404, Ans500Echo, AnsNetErr, AnsBadDig, Ans403}
 var authMenu = []string{AnsOK, Ans401, Ans403, Ans404, Ans500Echo, AnsNetErr, AnsCut}
 var retryMenu = []string{RetrySame, RetryFlow, Ans500Echo, AnsNetErr, Ans404, AnsBasic}
+var atlasKeyStates = []string{"fresh", "valid", "too-short", "not-base64", "directory", "parent-missing"}
 var tmpForms = []string{"clean", "trailing-slash", "dot-segment", "double-slash", "symlink"}
 var cutMenuN = 4 // 0, 1, len/2, len-1
 
@@ -249,9 +251,9 @@ func genAtlasRun(x *X, o atlasGenOpts) *atlasRun {
 		}
 	}
 	if !o.SuccessOnly {
-		r.OutFault = x.Costly(3, "output fault")
-		if r.OutFault == 1 {
-			r.OutFaultAt = x.Free(n, "which output path is a directory")
+		r.OutFault = x.Costly(4, "output fault")
+		if r.OutFault == 1 || r.OutFault == 3 {
+			r.OutFaultAt = x.Free(n, "which output path is unusable")
 		}
 	}
 	return r
@@ -354,7 +356,10 @@ func (r *atlasRun) model() (reqs []expReq, downloaded int, success bool, failWhe
 		if !payloadProcessable(h.Payload) {
 			return reqs, len(r.Hosts), false, fmt.Sprintf("payload %d", i)
 		}
-		if r.OutFault == 1 && r.OutFaultAt == i {
+		if (r.OutFault == 1 || r.OutFault == 3) && r.OutFaultAt == i {
+			if r.OutFault == 3 && payloadKinds[h.Payload] == "gzip-of-nothing" {
+				continue // nothing is written to the full device
+			}
 			return reqs, len(r.Hosts), false, fmt.Sprintf("output %d", i)
 		}
 		if r.OutFault == 2 {
@@ -384,6 +389,9 @@ func (r *atlasRun) String() string {
 	if r.KillAt != 0 {
 		extra += fmt.Sprintf(" killed-at-request-%d", r.KillAt)
 	}
+	if r.KeyState != 0 {
+		extra += " key-path=" + atlasKeyStates[r.KeyState]
+	}
 	return fmt.Sprintf("cluster[%s/%s cut%d body%d%s] %s outFault=%d@%d window=%v keys=%d flags[%s]%s", r.Cluster.Un, r.Cluster.Au, r.Cluster.Cut, r.ClusterBody, crt, strings.Join(hs, " "), r.OutFault, r.OutFaultAt, r.Window, r.KeySupply, r.Fl, extra)
 }
 
@@ -406,8 +414,8 @@ const winStart, winEnd = 1714550000, 1714557200
 func listFiles(dir string) map[string][]byte {
 	out := map[string][]byte{}
 	filepath.Walk(dir, func(p string, info os.FileInfo, err error) error {
-		if err != nil || info.IsDir() {
-			return nil
+		if err != nil || !info.Mode().IsRegular() {
+			return nil // directories, symbolic links (one may point at /dev/full), devices
 		}
 		rel, _ := filepath.Rel(dir, p)
 		b, _ := os.ReadFile(p)
@@ -453,6 +461,9 @@ func execAtlasLib(r *atlasRun, dir string) *atlasObs {
 	}
 	if r.OutFault == 1 {
 		os.MkdirAll(filepath.Join(outDir, fmt.Sprintf("out.log.%d", r.OutFaultAt)), 0o755)
+	}
+	if r.OutFault == 3 {
+		os.Symlink("/dev/full", filepath.Join(outDir, fmt.Sprintf("out.log.%d", r.OutFaultAt)))
 	}
 	if r.OutFault == 0 {
 		// what an earlier run left at the output paths: a longer file for every second host
@@ -542,6 +553,9 @@ func execAtlasCLI(c *Ctx, r *atlasRun, dir string) (*atlasObs, error) {
 	if r.OutFault == 1 {
 		os.MkdirAll(filepath.Join(outDir, fmt.Sprintf("out.log.%d", r.OutFaultAt)), 0o755)
 	}
+	if r.OutFault == 3 {
+		os.Symlink("/dev/full", filepath.Join(outDir, fmt.Sprintf("out.log.%d", r.OutFaultAt)))
+	}
 	if r.OutFault == 0 {
 		// what an earlier run left at the output paths: a longer file for every second host
 		stale := []byte(strings.Repeat("{\"stale\":\"line of an earlier run\"}\n", 20000))
@@ -568,7 +582,20 @@ func execAtlasCLI(c *Ctx, r *atlasRun, dir string) (*atlasObs, error) {
 	if r.Window {
 		args = append(args, "--atlasLogStartDate", strconv.Itoa(winStart), "--atlasLogEndDate", strconv.Itoa(winEnd))
 	}
-	args = append(args, r.Fl.CLIArgs(filepath.Join(dir, "enc.key"))...)
+	keyPath := filepath.Join(dir, "enc.key")
+	switch atlasKeyStates[r.KeyState] {
+	case "valid":
+		os.WriteFile(keyPath, []byte(base64.StdEncoding.EncodeToString(harnessKey)), 0o600)
+	case "too-short":
+		os.WriteFile(keyPath, []byte(base64.StdEncoding.EncodeToString(harnessKey[:32])), 0o600)
+	case "not-base64":
+		os.WriteFile(keyPath, []byte("this is *not* base64 !!"), 0o600)
+	case "directory":
+		os.Mkdir(keyPath, 0o755)
+	case "parent-missing":
+		keyPath = filepath.Join(dir, "no", "such", "dir", "enc.key")
+	}
+	args = append(args, r.Fl.CLIArgs(keyPath)...)
 	o.T0 = time.Now().Unix()
 	res, err := runCLI(CLIRun{Bin: c.Self, Args: args, Dir: dir, TmpDir: tmpSpelling(tmp, r.TmpForm), Env: env})
 	o.T1 = time.Now().Unix()
